@@ -2798,3 +2798,85 @@ def r24(cx):
 
 RS.explanation += (' After fix f15911f: the simulated dup2 changes the descriptor table only when its two descriptors differ (R23); every '
                    'insertion into Process.fds is behind a not-negative test of the key and dup with a negative minimum is EINVAL (R24).')
+
+
+# ---------------------------------------------------------------- added after seed agent C19w4 reported (exit 300) -> 300 in the simulator
+@RS.rule('C19.R25', 'K-TAINT', 'the parent of a simulated process sees the low 8 bits of its exit status, as wait(2) delivers them on a real '
+         'kernel (`(exit 300); echo $?` prints 44 on both systems): the status stored by the simulated exit() reaches ProcessState::exited '
+         'only through an 8-bit mask')
+def r25(cx):
+    F = cx.F
+    d = _impl_fn(F, VIRT, 'Exit::exit')
+    cx.require(d is not None, 'VirtualSystem does not implement Exit::exit')
+    base = F.bodies.get(d)
+    cx.require(base is not None, 'body of %s missing' % d)
+    body = _kernel_inlined(F, base)
+    cx.fn(d)
+    du = Q.DefUse(body)
+    param = [p for p in range(1, body.argc + 1) if 'ExitStatus' in (body.locals[p].get('ty') or '')]
+    cx.require(len(param) == 1, 'the simulated exit no longer takes one ExitStatus')
+    sinks = [(blk, t) for blk, t in body.calls() if Q.callee_is(t, [re.compile(r'job::ProcessState::exited$')])]
+    sinks += [(blk, s) for blk, j, s in Q.find_aggregates(body, 'yash_env::job::ProcessState', 'Halted')]
+    sinks += [(blk, s) for blk, j, s in Q.find_aggregates(body, 'yash_env::job::ProcessResult', 'Exited')]
+    cx.require(sinks, 'the simulated exit no longer builds a ProcessState (anchor moved)')
+
+    # sanitiser: `x & 0xFF`, `x as u8`, `x % 256`, rem_euclid(256)
+    def masked_locals():
+        out = set()
+        for blk, j, s in body.stmts():
+            if s['k'] != 'assign':
+                continue
+            rv = s['rv']
+            if rv['k'] == 'binop' and rv['op'] in ('BitAnd', 'Rem'):
+                consts = [str(x.get('c')) for x in (rv['a'], rv['b']) if isinstance(x, dict) and 'c' in x]
+                if any(re.match(r'^(255|256)(_[iu]\d+)?$', c) for c in consts):
+                    if (rv['op'] == 'BitAnd' and any(c.startswith('255') for c in consts)) or (rv['op'] == 'Rem' and any(c.startswith('256') for c in consts)):
+                        out.add((blk, j))
+            if rv['k'] == 'cast' and (rv.get('ty') or '') == 'u8':
+                out.add((blk, j))
+        for blk, t in body.calls():
+            if Q.callee_is(t, [re.compile(r'rem_euclid$')]) and any(str(a.get('c', '')).startswith('256') for a in t['a']):
+                out.add((blk, 't'))
+        return out
+    masks = masked_locals()
+    # two data-flow closures from the parameter: through everything, and through everything but the masking statements
+    def closure(skip):
+        seen = {param[0]}
+        changed = True
+        while changed:
+            changed = False
+            for blk, j, s in body.stmts():
+                if s['k'] != 'assign' or (blk, j) in skip or s['lhs']['l'] in seen:
+                    continue
+                if any(p['l'] in seen for p in Q.rvalue_places(s['rv'])):
+                    seen.add(s['lhs']['l'])
+                    changed = True
+            for blk, t in body.calls():
+                if (blk, 't') in skip or t['dest']['l'] in seen:
+                    continue
+                if Q.callee_is(t, Q.PROPAGATING_CALLS + [re.compile(r'rem_euclid$'), re.compile(r'::(from|into|clone)$')]) and \
+                        any((Q.operand_place(a_) or {}).get('l') in seen for a_ in t['a']):
+                    seen.add(t['dest']['l'])
+                    changed = True
+        return seen
+    everything = closure(set())
+    raw = closure(masks)
+    n = 0
+    for blk, node in sinks:
+        ops = node['a'] if 'a' in node else node['rv']['ops']
+        for o in ops:
+            pl = Q.operand_place(o)
+            if pl is None or pl['l'] not in everything:
+                continue
+            n += 1
+            ok = pl['l'] not in raw
+            cx.site('simulated exit: the status reaching %s at %s passed the 8-bit mask: %s' % (
+                pp.callee(node).split('::')[-1] if 'a' in node else node['rv'].get('variant'), body.loc(node), ok))
+            if not ok:
+                cx.violation(d, 'exit-status-not-truncated', 'the simulated exit() stores the full 32-bit status: `(exit 300); echo $?` prints 300 '
+                             'in the simulator and 44 on a real system (wait(2) delivers only the low 8 bits), `(exit 256)` is a failure in the '
+                             'simulator and success on a real system', loc=body.loc(node))
+    cx.require(n >= 1, 'the exit status parameter does not reach the ProcessState built by the simulated exit (shape changed: review)')
+
+
+RS.explanation += ' The simulated exit() keeps the low 8 bits of the status, as wait(2) does (R25).'
